@@ -69,10 +69,10 @@ def run(chk):
     prog = chk.prog
     ens = prog.cls(f"{ENS}:ConformerEnsemble")
     conf = prog.cls(f"{ENS}:Conformer")
-    r1_together(chk, ens)
-    r2_iter(chk, ens)
-    r3_view(chk, conf, ens)
-    r4_live(chk, ens)
+    chk.call(r1_together, chk, ens)
+    chk.call(r2_iter, chk, ens)
+    chk.call(r3_view, chk, conf, ens)
+    chk.call(r4_live, chk, ens)
 
 
 def r1_together(chk, ens):
